@@ -958,7 +958,7 @@ func main() {
 		ID: "C37", Model: "C37", Gen: gen, Impl: impl, Oracle: oracle,
 		Cases: func(th bool) int {
 			if th {
-				return 12000
+				return 10000
 			}
 			return 3000
 		},
